@@ -201,6 +201,10 @@ class Gen(object):
         return pool + ['a longer string literal', b'a longer bytes literal', True, False, None, 'value_name', 1, 1.0]
 
     def const(self):
+        if self.fdepth > 0 and not self.ge(12):
+            # before PEP 701 a string inside an f-string expression cannot reuse the quote or hold a backslash;
+            # ast.unparse of the 3.12 host would spell it the 3.12 way. Keep nested constants numeric there.
+            return ast.Constant(value=self.choice([0, 1, 2, 10, 255, 1.5, True, None, 1000]))
         if self.cfg.hoist_dense or (self.literal_pool is not None and self.p(0.5)):
             if self.literal_pool is None:
                 self.literal_pool = self.make_pool()
@@ -489,7 +493,7 @@ class Gen(object):
         return node
 
     def e_fstring(self):
-        if self.fdepth >= self.cfg.fstring_depth:
+        if self.fdepth >= self.cfg.fstring_depth or (self.fdepth >= 1 and not self.ge(12)):
             return self.const()
         self.features.add('fstring')
         self.fdepth += 1
